@@ -296,7 +296,12 @@ void error_handler (const char *err) {
       in_mudlib_error_handler = 0;
     }
 
-  if (current_heart_beat)
+  /* The heart beat is turned off when the error ends the heart_beat() call, that is when
+   * we go back to a recovery point of the driver outside of all LPC code. An error that
+   * ends in a protected call made from inside heart_beat() (safe_apply(): sprintf("%O")
+   * -> master::object_name(), net_dead(), socket callbacks ...) is over there, and
+   * heart_beat() goes on. */
+  if (current_heart_beat && (!current_error_context || current_error_context->save_csp < control_stack))
     {
       set_heart_beat (current_heart_beat, 0);
       debug_message ("{}\t----- heart beat in %s turned off\n", current_heart_beat->name);
